@@ -89,6 +89,42 @@ def classify(info, event_line, what):
     return site, tags
 
 
+def replay(ctx, path):
+    """Re-run the REAL library on the recorded relation (rebuilt from its constraints() lines) and re-judge."""
+    rp = json.load(open(path))
+    case = rp.get("case", [])
+    print("property=%s what=%s" % (rp.get("property"), rp.get("what")))
+    ctx.ensure_ppl()
+    drv = ctx.ensure_pplv("pplv_term")
+    h = ctx.compile_harness("c18_term.cc")
+    wd = ctx.workdir()
+    inp = os.path.join(wd, "replay_case.txt")
+    with open(inp, "w") as f:
+        f.write("\n".join(l for l in case if l.split()[0] in ("case", "R0", "B0", "A0")) + "\n")
+    rc, out, err = ctx.run([h, "--replay-file", inp], timeout=300)
+    journal = (out or "").splitlines()
+    print("\n".join(l[:200] for l in journal))
+    verd, infos, _ = run_driver(ctx, drv, journal, wd, nproc=1)
+    info = infos[0] if infos else {}
+    rcode = 0
+    for ln in sorted(verd):
+        for kind, what in verd[ln]:
+            if kind != "MISMATCH":
+                continue
+            site, tags = classify(info, journal[ln], what)
+            print("MISMATCH %s: %s | %s" % (site, what, journal[ln][:160]))
+            k = ctx.match_known({"site": site, "tags": tags})
+            if k is not None:
+                print("KNOWN-FINDING: property=%s %s [%s]" % (ctx.pid, k["what"], k["id"]))
+            else:
+                rcode = 1
+    if rcode:
+        print("VIOLATION property=%s replay=%s" % (ctx.pid, path))
+    else:
+        print("no (new) mismatch when re-executed and re-judged")
+    return rcode
+
+
 def run(ctx):
     ctx.ensure_ppl()
     broken = ctx.prove(PROPS)
@@ -97,19 +133,15 @@ def run(ctx):
     wd = ctx.workdir()
     quick = ctx.tier == "quick"
 
-    if ctx.replay:
-        rp = json.load(open(ctx.replay))
-        journal = rp.get("case", [])
-    else:
-        jpath = os.path.join(wd, "journal.txt")
-        # quick: 30 batches x 20 relations, n <= 2;  thorough: 400 x 20, n <= 3
-        nb, per, maxn = (30, 20, 2) if quick else (400, 20, 3)
-        cmd = [h, "--seed", str(ctx.seed), "--first", "0", "--last", str(nb), "--per", str(per),
-               "--maxn", str(maxn), "--cpu", "60"]
-        rc, _, err = ctx.run(cmd, stdout_path=jpath, timeout=3000)
-        if rc != 0:
-            ctx.fatal("harness failed rc=%s %s" % (rc, (err or "")[-500:]))
-        journal = open(jpath).read().splitlines()
+    jpath = os.path.join(wd, "journal.txt")
+    # quick: 30 batches x 20 relations, n <= 2;  thorough: 400 x 20, n <= 3
+    nb, per, maxn = (30, 20, 2) if quick else (400, 20, 3)
+    cmd = [h, "--seed", str(ctx.seed), "--first", "0", "--last", str(nb), "--per", str(per),
+           "--maxn", str(maxn), "--cpu", "60"]
+    rc, _, err = ctx.run(cmd, stdout_path=jpath, timeout=3000)
+    if rc != 0:
+        ctx.fatal("harness failed rc=%s %s" % (rc, (err or "")[-500:]))
+    journal = open(jpath).read().splitlines()
 
     verd, infos, tot = run_driver(ctx, drv, journal, wd)
     cases = split_cases(journal)
@@ -157,9 +189,10 @@ def run(ctx):
                     ctx.violation("%s: %s | case: %s | event: %s" % (site, what, lines[0], l[:200]),
                                   {"case": lines, "event": l, "verdict": what, "site": site, "tags": tags,
                                    "caseinfo": {k: v for k, v in info.items() if k != "_ln"},
-                                   "replay_cmd": "bin/check C18 --replay <this file>"},
+                                   "harness_args": cmd[1:],
+                                   "replay_cmd": "bin/check C18 --replay <this file>  (re-runs the real library on the recorded relation)"},
                                   found_input=True, record={"site": site, "tags": tags})
-    if not quick and not ctx.replay:
+    if not quick:
         broken += ctx.leanchecker(PROPS)
     for b in broken:
         ctx.violation("proof obligation broken: " + b, {"obligation": b}, found_input=False)
@@ -188,6 +221,5 @@ def run(ctx):
         "`false` a finite family of points/recession directions of the relation whose conditions on mu are unsatisfiable; "
         "when the generator hint printed by the harness does not allow either, the case is counted as undecided (skip)",
         "MS = PR = existence is required for relations without strict constraints only (closed polyhedral relations)",
-        "quasi spaces (decreasing / bounded) are checked generator-wise with the K1 inclusions, without a dedicated theorem",
         "a child killed by RLIMIT_CPU (MIP_Problem not terminating) is inconclusive, not a failure",
     ]
